@@ -38,8 +38,18 @@ RoundTrip(e) ==
   \* reloaded sets have the same effect as wild-card context
   /\ ToSet(e.probe_reloaded) = ToSet(e.probe_mem)
 
+(* the same on a network too large for explicit sets: the harness logs BDD-level facts only *)
+RoundTripBig(e) ==
+  /\ e.outcome = "ok"
+  /\ ToSet(e.entries) = {x \o ".bdd" : x \in ToSet(e.labels)} \cup {"model.aeon", "formulae.txt"}
+  /\ ToSet(e.loaded_labels) = ToSet(e.labels)
+  /\ \A x \in ToSet(e.labels) : e.big_equal[x]
+  /\ e.back_formulae = e.formulae
+  /\ e.probe_equal
+
 VARIABLE ei
 Init == ei \in 1..Len(Doc.events)
 Next == UNCHANGED ei
-Verdict == LET e == Doc.events[ei] IN PrintT(<<"VERDICT", e.id, <<B2S(RoundTrip(e))>>>>)
+Verdict == LET e == Doc.events[ei] IN
+             PrintT(<<"VERDICT", e.id, <<B2S(IF "big" \in DOMAIN e /\ e.big THEN RoundTripBig(e) ELSE RoundTrip(e))>>>>)
 =============================================================================
